@@ -1,9 +1,13 @@
 //@unit hx
 //@serves C28 C29
 //@src node/src/p2p/header_ex/utils.rs
+#![feature(allocator_api)]
 use vstd::prelude::*;
 verus! {
 //@begin-export
+// std: reserve_exact only changes the capacity (A-std)
+pub assume_specification<T, A: std::alloc::Allocator> [std::vec::Vec::<T, A>::reserve_exact] (v: &mut Vec<T, A>, additional: usize)
+    ensures final(v)@ == old(v)@;
 #[verifier::external_body]
 fn vx_assert(c: bool) requires c { }
 #[verifier::external_body]
@@ -307,8 +311,6 @@ async fn handle_request_by_height_task(store: &Store, channel: Channel, origin: 
                     ensures
                         responses@.len() == __i1_end - origin || !store.stored@.contains(origin + responses@.len()),
                     decreases __i1_end - __i1
-//@sub E9 "responses.reserve_exact(amount as usize);" => ""
-//@sub E9 "responses.reserve_exact(1);" => ""
 //@hint before "if responses.is_empty() {" 2
                 proof {
                     lemma_run_len_prefix(store.stored@, origin as int, __i1_end - origin, responses@.len() as int);
